@@ -80,6 +80,10 @@ type c06Conn struct {
 	cur  *genCmd
 	in   bool
 	done func()
+	// busyFirst makes the BMC answer node busy to the first attempt of the
+	// current command, so that the retransmission is parsed as well
+	busyFirst bool
+	attempt   int
 }
 
 func c06Open(run *ev.Run, b c06Batch, cs ev.Case) *c06Conn {
@@ -102,6 +106,18 @@ func c06Open(run *ev.Run, b c06Batch, cs ev.Case) *c06Conn {
 		if c.cur == nil {
 			return 0xc1, nil, true
 		}
+		c.attempt++
+		if c.busyFirst && c.attempt == 1 {
+			switch evn.NetFn {
+			case 0x2c:
+				return 0xc0, []byte{0xdc}, true
+			case 0x2e:
+				if len(evn.Data) >= 3 {
+					return 0xc0, evn.Data[:3], true
+				}
+			}
+			return 0xc0, nil, true
+		}
 		return 0, c.cur.OkBody, true
 	}
 	c.conn = st
@@ -123,6 +139,7 @@ func c06Open(run *ev.Run, b c06Batch, cs ev.Case) *c06Conn {
 func (c *c06Conn) send(run *ev.Run, g genCmd, cs ev.Case) bool {
 	run.Eval(1)
 	c.cur = &g
+	c.attempt = 0
 	first := c.b.Len()
 	ctx, cancel := bg(10 * time.Second)
 	var code ipmi.CompletionCode
@@ -143,11 +160,31 @@ func (c *c06Conn) send(run *ev.Run, g genCmd, cs ev.Case) bool {
 		run.Nontrivial(g.Label + "|refused")
 		return true
 	}
-	if len(evs) != 1 {
-		run.Violation("C06:"+g.Label+":datagram-count", fmt.Sprintf("%s: %d datagrams reached the BMC (err=%v)", desc, len(evs), err), cs, nil)
+	wantN := 1
+	if c.busyFirst {
+		wantN = 2
+	}
+	if len(evs) != wantN {
+		run.Violation("C06:"+g.Label+":datagram-count", fmt.Sprintf("%s: %d datagrams reached the BMC, expected %d (err=%v)", desc, len(evs), wantN, err), cs, nil)
 		return false
 	}
-	e := evs[0]
+	for i := range evs {
+		if !c.verify(run, g, cs, desc, evs[i], i > 0) {
+			return false
+		}
+	}
+	if err != nil || code != 0 {
+		run.Violation("C06:"+g.Label+":call-failed", fmt.Sprintf("%s: code %v err %v although the request was well-formed and answered", desc, code, err), cs, nil)
+		return false
+	}
+	return true
+}
+
+// verify parses one datagram independently and compares it with the caller's command.
+func (c *c06Conn) verify(run *ev.Run, g genCmd, cs ev.Case, desc string, e refbmc.Event, retransmission bool) bool {
+	if retransmission {
+		desc += " [retransmission]"
+	}
 	run.Event("datagrams-parsed", 1)
 	viol := func(key, what string) bool {
 		run.Violation("C06:"+g.Label+":"+key, fmt.Sprintf("%s: %s; datagram %x", desc, what, e.Raw), cs, nil)
@@ -190,9 +227,6 @@ func (c *c06Conn) send(run *ev.Run, g genCmd, cs ev.Case) bool {
 		if d := f.Diff(g.Want); len(d) > 0 {
 			return viol("fields", fmt.Sprintf("%v", d))
 		}
-	}
-	if err != nil || code != 0 {
-		return viol("call-failed", fmt.Sprintf("code %v err %v although the request was well-formed and answered", code, err))
 	}
 	return true
 }
@@ -443,6 +477,7 @@ func c06Exec(run *ev.Run, cs ev.Case) {
 				continue
 			}
 			g := genCommand(r, k, r.Intn(201))
+			c.busyFirst = i%5 == 0 && !g.SerFail && !b.UDP
 			if !do(g, "random") {
 				return
 			}
